@@ -91,6 +91,7 @@ func c03ExecUnits(c *fw.Ctx, backend string, cas any, seq [][]string, checkFrom 
 		smtp := sys.DefaultSMTP()
 		smtp.RejectDomains = []string{"rej.test"}
 		smtp.MaxMessageBytes = 5000000
+		smtp.MaxRecipients = 2 // a third RCPT is refused (552) and is no recipient of the transaction
 		s := sys.New(sys.Spec{Store: sys.StoreSpec{Backend: backend}, SMTP: smtp, NoHub: true})
 		defer s.Close()
 		k := s.DialSMTP()
